@@ -250,3 +250,1228 @@ Definition lt (a b : list Z) : bool :=
 Definition call (a : list Z) (x : Z) : Z :=
   fold_right (fun c y => (y * (x mod p) + c) mod p) 0 a.
 End Defs.
+
+(** ------------------------------------------------------------------------------------------
+    Part 2: integer-polynomial semantics, congruence modulo p, canonical forms *)
+
+(** * Part 2: semantics *)
+
+(** ** unfolding helpers *)
+Lemma strip_cons x t :
+  strip (x :: t) = match strip t with
+                   | [] => if x =? 0 then [] else [x]
+                   | t' => x :: t'
+                   end.
+Proof. reflexivity. Qed.
+
+Lemma mulz_cons x a b : mulz (x :: a) b = addz (scalez x b) (0 :: mulz a b).
+Proof. reflexivity. Qed.
+
+Lemma addz_nil_r a : addz a [] = a.
+Proof. destruct a; reflexivity. Qed.
+
+Lemma addz_nil_l b : addz [] b = b.
+Proof. destruct b; reflexivity. Qed.
+
+Lemma nth_nil0 i : nth i (@nil Z) 0 = 0.
+Proof. destruct i; reflexivity. Qed.
+
+Lemma nth_single0 i : nth i [0] 0 = 0.
+Proof. destruct i as [|[|i]]; reflexivity. Qed.
+
+(** ** evalZ *)
+Lemma evalZ_addz a b x : evalZ (addz a b) x = evalZ a x + evalZ b x.
+Proof.
+  revert b; induction a as [|c a IH]; intros b.
+  - rewrite addz_nil_l. simpl. lia.
+  - destruct b as [|d b].
+    + simpl. lia.
+    + simpl. rewrite IH. ring.
+Qed.
+
+Lemma evalZ_scalez c a x : evalZ (scalez c a) x = c * evalZ a x.
+Proof.
+  unfold scalez. induction a as [|d a IH]; simpl.
+  - ring.
+  - rewrite IH. ring.
+Qed.
+
+Lemma evalZ_negz a x : evalZ (negz a) x = - evalZ a x.
+Proof.
+  unfold negz. induction a as [|d a IH]; simpl.
+  - reflexivity.
+  - rewrite IH. ring.
+Qed.
+
+Lemma evalZ_subz a b x : evalZ (subz a b) x = evalZ a x - evalZ b x.
+Proof. unfold subz. rewrite evalZ_addz, evalZ_negz. ring. Qed.
+
+Lemma evalZ_mulz a b x : evalZ (mulz a b) x = evalZ a x * evalZ b x.
+Proof.
+  induction a as [|c a IH].
+  - simpl. ring.
+  - rewrite mulz_cons, evalZ_addz, evalZ_scalez. cbn [evalZ]. rewrite IH. ring.
+Qed.
+
+Lemma evalZ_sqz a x : evalZ (sqz a) x = evalZ a x * evalZ a x.
+Proof.
+  induction a as [|c a IH].
+  - simpl. ring.
+  - destruct a as [|d t].
+    + simpl. ring.
+    + remember (d :: t) as a' eqn:Ea.
+      assert (Hs : sqz (c :: a') = c * c :: addz (scalez (2 * c) a') (0 :: sqz a')).
+      { subst a'. reflexivity. }
+      rewrite Hs. cbn [evalZ]. rewrite evalZ_addz, evalZ_scalez. cbn [evalZ].
+      rewrite IH. ring.
+Qed.
+
+Lemma evalZ_strip a x : evalZ (strip a) x = evalZ a x.
+Proof.
+  induction a as [|c a IH].
+  - reflexivity.
+  - rewrite strip_cons. destruct (strip a) as [|z l] eqn:E.
+    + cbn [evalZ] in IH. destruct (c =? 0) eqn:Ec.
+      * cbn [evalZ]. rewrite <- IH. lia.
+      * cbn [evalZ]. rewrite <- IH. lia.
+    + cbn [evalZ] in *. rewrite IH. reflexivity.
+Qed.
+
+Lemma evalZ_app a b x : evalZ (a ++ b) x = evalZ a x + x ^ Z.of_nat (length a) * evalZ b x.
+Proof.
+  induction a as [|c a IH].
+  - cbn [app evalZ length]. change (Z.of_nat 0) with 0. rewrite Z.pow_0_r. ring.
+  - cbn [app evalZ length]. rewrite IH, Nat2Z.inj_succ, Z.pow_succ_r by lia. ring.
+Qed.
+
+Lemma evalZ_repeat0 n x : evalZ (repeat 0 n) x = 0.
+Proof.
+  induction n as [|n IH]; simpl.
+  - reflexivity.
+  - rewrite IH. ring.
+Qed.
+
+(** ** nth / length *)
+Lemma nth_addz i a b : nth i (addz a b) 0 = nth i a 0 + nth i b 0.
+Proof.
+  revert i b; induction a as [|c a IH]; intros i b.
+  - rewrite addz_nil_l, nth_nil0. lia.
+  - destruct b as [|d b].
+    + rewrite addz_nil_r, nth_nil0. lia.
+    + destruct i as [|i]; simpl.
+      * reflexivity.
+      * apply IH.
+Qed.
+
+Lemma nth_scalez i c a : nth i (scalez c a) 0 = c * nth i a 0.
+Proof.
+  unfold scalez. revert i; induction a as [|d a IH]; intros i.
+  - cbn [map]. rewrite !nth_nil0. ring.
+  - destruct i as [|i]; simpl.
+    + reflexivity.
+    + apply IH.
+Qed.
+
+Lemma nth_negz i a : nth i (negz a) 0 = - nth i a 0.
+Proof.
+  unfold negz. revert i; induction a as [|d a IH]; intros i.
+  - cbn [map]. rewrite !nth_nil0. reflexivity.
+  - destruct i as [|i]; simpl.
+    + reflexivity.
+    + apply IH.
+Qed.
+
+Lemma nth_subz i a b : nth i (subz a b) 0 = nth i a 0 - nth i b 0.
+Proof. unfold subz. rewrite nth_addz, nth_negz. ring. Qed.
+
+Lemma length_addz a b : length (addz a b) = Nat.max (length a) (length b).
+Proof.
+  revert b; induction a as [|c a IH]; intros b.
+  - rewrite addz_nil_l. reflexivity.
+  - destruct b as [|d b].
+    + reflexivity.
+    + cbn [addz length]. rewrite IH. reflexivity.
+Qed.
+
+Lemma length_scalez c a : length (scalez c a) = length a.
+Proof. unfold scalez. apply map_length. Qed.
+
+Lemma length_mulz_cons x a b :
+  b <> [] -> length (mulz (x :: a) b) = (length a + length b)%nat.
+Proof.
+  intros Hb. assert (Hlb : (1 <= length b)%nat).
+  { destruct b; [congruence | simpl; lia]. }
+  revert x; induction a as [|y t IH]; intros x.
+  - rewrite mulz_cons, length_addz, length_scalez. simpl. lia.
+  - rewrite mulz_cons, length_addz, length_scalez. cbn [length]. rewrite IH. simpl. lia.
+Qed.
+
+Lemma length_mulz a b : a <> [] -> b <> [] -> length (mulz a b) = (length a + length b - 1)%nat.
+Proof.
+  intros Ha Hb. destruct a as [|x a]; [congruence|].
+  rewrite length_mulz_cons by exact Hb. simpl. lia.
+Qed.
+
+Lemma last_nth (a : list Z) d : a <> [] -> last a d = nth (length a - 1) a d.
+Proof.
+  induction a as [|x t IH]; intros Hne; [congruence|].
+  destruct t as [|y t'].
+  - reflexivity.
+  - change (last (x :: y :: t') d) with (last (y :: t') d).
+    rewrite IH by discriminate.
+    replace (length (x :: y :: t') - 1)%nat with (S (length (y :: t') - 1))%nat
+      by (simpl; lia).
+    reflexivity.
+Qed.
+
+Lemma last_nth0 (a : list Z) : last a 0 = nth (length a - 1) a 0.
+Proof.
+  destruct a as [|x t]; [reflexivity|]. apply last_nth. discriminate.
+Qed.
+
+Lemma last_mulz a b : a <> [] -> b <> [] -> last (mulz a b) 0 = last a 0 * last b 0.
+Proof.
+  intros Ha Hb. assert (Hlb : (1 <= length b)%nat).
+  { destruct b; [congruence | simpl; lia]. }
+  induction a as [|x t IH]; [congruence|].
+  rewrite last_nth0, length_mulz_cons by exact Hb.
+  rewrite mulz_cons, nth_addz, nth_scalez.
+  destruct t as [|y t'].
+  - cbn [length]. rewrite nth_single0.
+    replace (0 + length b - 1)%nat with (length b - 1)%nat by lia.
+    rewrite <- last_nth0. simpl. ring.
+  - assert (IH' := IH ltac:(discriminate)). clear IH.
+    rewrite (nth_overflow b) by (cbn [length]; lia).
+    replace (length (y :: t') + length b - 1)%nat
+      with (S (length (mulz (y :: t') b) - 1))%nat
+      by (rewrite length_mulz_cons by exact Hb; cbn [length]; lia).
+    cbn [nth]. rewrite <- last_nth0, IH'.
+    change (last (x :: y :: t') 0) with (last (y :: t') 0). ring.
+Qed.
+
+(** ** strip *)
+Lemma nth_strip i a : nth i (strip a) 0 = nth i a 0.
+Proof.
+  revert i; induction a as [|x t IH]; intros i; [reflexivity|].
+  rewrite strip_cons. destruct (strip t) as [|z l] eqn:E.
+  - destruct (x =? 0) eqn:Ex.
+    + rewrite nth_nil0. destruct i as [|i]; cbn [nth].
+      * lia.
+      * rewrite <- IH. rewrite nth_nil0. reflexivity.
+    + destruct i as [|i]; cbn [nth].
+      * reflexivity.
+      * rewrite <- IH. reflexivity.
+  - destruct i as [|i].
+    + reflexivity.
+    + cbn [nth]. apply IH.
+Qed.
+
+Lemma length_strip_le a : (length (strip a) <= length a)%nat.
+Proof.
+  induction a as [|x t IH]; [simpl; lia|].
+  rewrite strip_cons. destruct (strip t) as [|z l].
+  - destruct (x =? 0); simpl; lia.
+  - cbn [length] in *. lia.
+Qed.
+
+Lemma strip_last a : last (strip a) 1 <> 0.
+Proof.
+  induction a as [|x t IH]; [simpl; lia|].
+  rewrite strip_cons. destruct (strip t) as [|z l].
+  - destruct (x =? 0) eqn:Ex; simpl; lia.
+  - change (last (x :: z :: l) 1) with (last (z :: l) 1). exact IH.
+Qed.
+
+Lemma strip_id a : last a 1 <> 0 -> strip a = a.
+Proof.
+  induction a as [|x t IH]; intros H; [reflexivity|].
+  rewrite strip_cons. destruct t as [|y t'].
+  - simpl in *. destruct (x =? 0) eqn:Ex; [lia | reflexivity].
+  - change (last (x :: y :: t') 1) with (last (y :: t') 1) in H.
+    rewrite (IH H). reflexivity.
+Qed.
+
+Lemma strip_app0 a : strip (a ++ [0]) = strip a.
+Proof.
+  induction a as [|x t IH]; [reflexivity|].
+  cbn [app]. rewrite !strip_cons, IH. reflexivity.
+Qed.
+
+Lemma strip_Forall (P : Z -> Prop) a : Forall P a -> Forall P (strip a).
+Proof.
+  induction a as [|x t IH]; intros H; [exact H|].
+  inversion H as [|x' t' Hx Ht]; subst.
+  rewrite strip_cons. specialize (IH Ht). destruct (strip t) as [|z l].
+  - destruct (x =? 0); [constructor | constructor; [exact Hx | constructor]].
+  - constructor; assumption.
+Qed.
+
+Lemma strip_zeros a : (forall i, nth i a 0 = 0) -> strip a = [].
+Proof.
+  induction a as [|x t IH]; intros H; [reflexivity|].
+  rewrite strip_cons, (IH (fun i => H (S i))).
+  pose proof (H O) as H0. simpl in H0. subst x. reflexivity.
+Qed.
+
+Lemma strip_ext a b : (forall i, nth i a 0 = nth i b 0) -> strip a = strip b.
+Proof.
+  revert b; induction a as [|x t IH]; intros b H.
+  - symmetry. apply strip_zeros. intros i. rewrite <- H. apply nth_nil0.
+  - destruct b as [|y b'].
+    + apply strip_zeros. intros i. rewrite H. apply nth_nil0.
+    + pose proof (H O) as H0. simpl in H0. subst y.
+      rewrite !strip_cons, (IH b' (fun i => H (S i))). reflexivity.
+Qed.
+
+(** ** an integer polynomial vanishing at all positive integers is zero *)
+Lemma evalZ_vanish a : (forall x, 0 < x -> evalZ a x = 0) -> forall i, nth i a 0 = 0.
+Proof.
+  induction a as [|c t IH]; intros H i.
+  - apply nth_nil0.
+  - assert (Hc : c = 0).
+    { pose proof (H (Z.abs c + 1) ltac:(lia)) as Hx. cbn [evalZ] in Hx.
+      remember (evalZ t (Z.abs c + 1)) as E eqn:HE. clear HE.
+      destruct (Z.eq_dec E 0) as [E0|E0]; [subst E; lia|]. nia. }
+    subst c.
+    assert (Ht : forall x, 0 < x -> evalZ t x = 0).
+    { intros x Hx. pose proof (H x Hx) as Hv. cbn [evalZ] in Hv. nia. }
+    destruct i as [|i]; [reflexivity|]. cbn [nth]. apply IH. exact Ht.
+Qed.
+
+(** ** congruence modulo p: coefficientwise and as polynomial functions *)
+Definition ceq (p : Z) (a b : list Z) : Prop := forall i, (nth i a 0) mod p = (nth i b 0) mod p.
+Definition peq (p : Z) (a b : list Z) : Prop := exists k, forall x, evalZ a x = evalZ b x + p * evalZ k x.
+
+Lemma evalZ_divp p l x :
+  p <> 0 -> (forall i, (nth i l 0) mod p = 0) ->
+  evalZ l x = p * evalZ (map (fun d => d / p) l) x.
+Proof.
+  intros Hp. induction l as [|c t IH]; intros H.
+  - simpl. ring.
+  - cbn [map evalZ]. rewrite (IH (fun i => H (S i))).
+    pose proof (H O) as H0. cbn [nth] in H0.
+    assert (Hc : c = p * (c / p)).
+    { pose proof (Z.div_mod c p Hp) as Hdm. lia. }
+    rewrite Hc at 1. ring.
+Qed.
+
+Lemma ceq_peq p a b : p <> 0 -> ceq p a b -> peq p a b.
+Proof.
+  intros Hp H. exists (map (fun d => d / p) (subz a b)). intros x.
+  rewrite <- evalZ_divp.
+  - rewrite evalZ_subz. ring.
+  - exact Hp.
+  - intros i. rewrite nth_subz, Zminus_mod, (H i), Z.sub_diag. apply Zmod_0_l.
+Qed.
+
+Lemma peq_ceq p a b : p <> 0 -> peq p a b -> ceq p a b.
+Proof.
+  intros Hp [k Hk] i.
+  assert (Hv : forall x, 0 < x -> evalZ (subz a (addz b (scalez p k))) x = 0).
+  { intros x _. rewrite evalZ_subz, evalZ_addz, evalZ_scalez, Hk. ring. }
+  pose proof (evalZ_vanish _ Hv i) as Hi.
+  rewrite nth_subz, nth_addz, nth_scalez in Hi.
+  replace (nth i a 0) with (nth i b 0 + nth i k 0 * p) by lia.
+  apply Z_mod_plus_full.
+Qed.
+
+Lemma peq_refl p a : peq p a a.
+Proof. exists []. intros x. simpl. ring. Qed.
+
+Lemma peq_sym p a b : peq p a b -> peq p b a.
+Proof.
+  intros [k Hk]. exists (negz k). intros x. rewrite evalZ_negz, Hk. ring.
+Qed.
+
+Lemma peq_trans p a b c : peq p a b -> peq p b c -> peq p a c.
+Proof.
+  intros [k1 H1] [k2 H2]. exists (addz k1 k2). intros x.
+  rewrite evalZ_addz, H1, H2. ring.
+Qed.
+
+Lemma peq_evalZ p a b : (forall x, evalZ a x = evalZ b x) -> peq p a b.
+Proof. intros H. exists []. intros x. rewrite H. simpl. ring. Qed.
+
+Lemma peq_addz p a a' b b' : peq p a a' -> peq p b b' -> peq p (addz a b) (addz a' b').
+Proof.
+  intros [ka Ha] [kb Hb]. exists (addz ka kb). intros x.
+  rewrite !evalZ_addz, Ha, Hb. ring.
+Qed.
+
+Lemma peq_subz p a a' b b' : peq p a a' -> peq p b b' -> peq p (subz a b) (subz a' b').
+Proof.
+  intros [ka Ha] [kb Hb]. exists (subz ka kb). intros x.
+  rewrite !evalZ_subz, Ha, Hb. ring.
+Qed.
+
+Lemma peq_negz p a a' : peq p a a' -> peq p (negz a) (negz a').
+Proof.
+  intros [ka Ha]. exists (negz ka). intros x.
+  rewrite !evalZ_negz, Ha. ring.
+Qed.
+
+Lemma peq_scalez p c a a' : peq p a a' -> peq p (scalez c a) (scalez c a').
+Proof.
+  intros [ka Ha]. exists (scalez c ka). intros x.
+  rewrite !evalZ_scalez, Ha. ring.
+Qed.
+
+Lemma peq_mulz p a a' b b' : peq p a a' -> peq p b b' -> peq p (mulz a b) (mulz a' b').
+Proof.
+  intros [ka Ha] [kb Hb].
+  exists (addz (mulz ka b') (addz (mulz a' kb) (scalez p (mulz ka kb)))). intros x.
+  rewrite !evalZ_addz, evalZ_scalez, !evalZ_mulz, Ha, Hb. ring.
+Qed.
+
+Lemma ceq_refl p a : ceq p a a.
+Proof. intros i. reflexivity. Qed.
+
+Lemma ceq_sym p a b : ceq p a b -> ceq p b a.
+Proof. intros H i. symmetry. apply H. Qed.
+
+Lemma ceq_trans p a b c : ceq p a b -> ceq p b c -> ceq p a c.
+Proof. intros H1 H2 i. rewrite (H1 i). apply H2. Qed.
+
+Lemma peq_strip p a : peq p (strip a) a.
+Proof. apply peq_evalZ. intros x. apply evalZ_strip. Qed.
+
+Lemma nth_modp p i a : nth i (modp p a) 0 = (nth i a 0) mod p.
+Proof.
+  unfold modp. revert i; induction a as [|c t IH]; intros i.
+  - cbn [map]. rewrite !nth_nil0, Zmod_0_l. reflexivity.
+  - destruct i as [|i]; simpl.
+    + reflexivity.
+    + apply IH.
+Qed.
+
+Lemma peq_modp p a : p <> 0 -> peq p (modp p a) a.
+Proof.
+  intros Hp. apply ceq_peq; [exact Hp|]. intros i.
+  rewrite nth_modp. apply Zmod_mod.
+Qed.
+
+(** ** canonical forms *)
+Lemma Forall_range_nth p a i :
+  0 < p -> Forall (fun x => 0 <= x < p) a -> 0 <= nth i a 0 < p.
+Proof.
+  intros Hp H. revert i; induction H as [|x t Hx Ht IH]; intros i.
+  - rewrite nth_nil0. lia.
+  - destruct i as [|i]; simpl.
+    + exact Hx.
+    + apply IH.
+Qed.
+
+Lemma canon p a b : wf p a -> wf p b -> ceq p a b -> a = b.
+Proof.
+  intros [Fa La] [Fb Lb] H.
+  destruct (Z_lt_le_dec 0 p) as [Hp|Hp].
+  - rewrite <- (strip_id a La), <- (strip_id b Lb). apply strip_ext. intros i.
+    pose proof (Forall_range_nth p a i Hp Fa) as Ra.
+    pose proof (Forall_range_nth p b i Hp Fb) as Rb.
+    pose proof (H i) as Hi.
+    rewrite (Z.mod_small _ _ Ra), (Z.mod_small _ _ Rb) in Hi. exact Hi.
+  - destruct a as [|x a'].
+    + destruct b as [|y b']; [reflexivity|].
+      inversion Fb as [|y' t' Hy Ht]; subst. lia.
+    + inversion Fa as [|x' t' Hx Ht]; subst. lia.
+Qed.
+
+Lemma canon_peq p a b : 0 < p -> wf p a -> wf p b -> peq p a b -> a = b.
+Proof.
+  intros Hp Wa Wb H. apply (canon p a b Wa Wb). apply peq_ceq; [lia | exact H].
+Qed.
+
+
+
+(** coefficient semantics of the reduced operations *)
+Lemma last_cons_nonnil (x : Z) l d : l <> [] -> last (x :: l) d = last l d.
+Proof. intros Hl. destruct l as [|y l]; [congruence|reflexivity]. Qed.
+
+Lemma nth_mod_small p l i : Forall (fun x => 0 <= x < p) l -> (nth i l 0) mod p = nth i l 0.
+Proof.
+  intros H. revert i; induction H as [|x t Hx Ht IH]; intros i.
+  - destruct i; apply Zmod_0_l.
+  - destruct i as [|i]; cbn [nth]; [apply Z.mod_small; exact Hx|apply IH].
+Qed.
+
+Lemma addc_mod p x y : 0 <= x < p -> 0 <= y < p -> addc p x y = (x + y) mod p.
+Proof.
+  intros Hx Hy. unfold addc. rewrite Z.geb_leb.
+  destruct (Z.leb_spec p (x + y)) as [H|H].
+  - apply (Z.mod_unique (x + y) p 1); [left; lia|ring].
+  - apply (Z.mod_unique (x + y) p 0); [left; lia|ring].
+Qed.
+
+Lemma subc_mod p x y : 0 <= x < p -> 0 <= y < p -> subc p x y = (x - y) mod p.
+Proof.
+  intros Hx Hy. unfold subc.
+  destruct (Z.ltb_spec (x - y) 0) as [H|H].
+  - apply (Z.mod_unique (x - y) p (-1)); [left; lia|ring].
+  - apply (Z.mod_unique (x - y) p 0); [left; lia|ring].
+Qed.
+
+Lemma nth_add_raw p a b i : Forall (fun x => 0 <= x < p) a -> Forall (fun x => 0 <= x < p) b ->
+  nth i (add_raw p a b) 0 = (nth i a 0 + nth i b 0) mod p.
+Proof.
+  intros Ha. revert b i; induction Ha as [|x a' Hx Ha' IH]; intros b i Hb.
+  - replace (add_raw p [] b) with b by (destruct b; reflexivity).
+    replace (nth i [] 0) with 0 by (destruct i; reflexivity).
+    rewrite Z.add_0_l. symmetry. apply nth_mod_small. exact Hb.
+  - destruct Hb as [|y b' Hy Hb'].
+    + cbn [add_raw]. replace (nth i [] 0) with 0 by (destruct i; reflexivity).
+      rewrite Z.add_0_r. symmetry. apply nth_mod_small. constructor; assumption.
+    + cbn [add_raw]. destruct i as [|i]; cbn [nth].
+      * apply addc_mod; assumption.
+      * apply IH. exact Hb'.
+Qed.
+
+Lemma add_raw_Forall p a b : Forall (fun x => 0 <= x < p) a -> Forall (fun x => 0 <= x < p) b ->
+  Forall (fun x => 0 <= x < p) (add_raw p a b).
+Proof.
+  intros Ha. revert b; induction Ha as [|x a' Hx Ha' IH]; intros b Hb.
+  - replace (add_raw p [] b) with b by (destruct b; reflexivity). exact Hb.
+  - destruct Hb as [|y b' Hy Hb'].
+    + cbn [add_raw]. constructor; assumption.
+    + cbn [add_raw]. constructor; [|apply IH; exact Hb'].
+      rewrite addc_mod by assumption. apply Z.mod_pos_bound. lia.
+Qed.
+
+Lemma nth_add_generic p a b i : Forall (fun x => 0 <= x < p) a -> Forall (fun x => 0 <= x < p) b ->
+  nth i (add p a b) 0 = (nth i a 0 + nth i b 0) mod p.
+Proof.
+  intros Ha Hb. unfold add. rewrite nth_strip.
+  destruct (length a <? length b)%nat.
+  - rewrite nth_add_raw by assumption. f_equal. ring.
+  - apply nth_add_raw; assumption.
+Qed.
+
+Lemma add_wf p a b : Forall (fun x => 0 <= x < p) a -> Forall (fun x => 0 <= x < p) b -> wf p (add p a b).
+Proof.
+  intros Ha Hb. unfold add. split; [|apply strip_last].
+  apply strip_Forall. destruct (length a <? length b)%nat; apply add_raw_Forall; assumption.
+Qed.
+
+Lemma nth_sub_raw p a b i : Forall (fun x => 0 <= x < p) a -> Forall (fun x => 0 <= x < p) b ->
+  nth i (sub_raw p a b) 0 = (nth i a 0 - nth i b 0) mod p.
+Proof.
+  intros Ha Hb. revert a i Ha; induction Hb as [|y b' Hy Hb' IH]; intros a i Ha.
+  - cbn [sub_raw]. replace (nth i [] 0) with 0 by (destruct i; reflexivity).
+    rewrite Z.sub_0_r. symmetry. apply nth_mod_small. exact Ha.
+  - destruct Ha as [|x a' Hx Ha'].
+    + cbn [sub_raw]. destruct i as [|i]; cbn [nth].
+      * apply subc_mod; lia.
+      * rewrite IH by constructor. destruct i; reflexivity.
+    + cbn [sub_raw]. destruct i as [|i]; cbn [nth].
+      * apply subc_mod; assumption.
+      * apply IH. exact Ha'.
+Qed.
+
+Lemma sub_raw_Forall p a b : Forall (fun x => 0 <= x < p) a -> Forall (fun x => 0 <= x < p) b ->
+  Forall (fun x => 0 <= x < p) (sub_raw p a b).
+Proof.
+  intros Ha Hb. revert a Ha; induction Hb as [|y b' Hy Hb' IH]; intros a Ha.
+  - exact Ha.
+  - destruct Ha as [|x a' Hx Ha'].
+    + cbn [sub_raw]. constructor; [|apply IH; constructor].
+      rewrite subc_mod by lia. apply Z.mod_pos_bound. lia.
+    + cbn [sub_raw]. constructor; [|apply IH; exact Ha'].
+      rewrite subc_mod by assumption. apply Z.mod_pos_bound. lia.
+Qed.
+
+Lemma nth_sub_generic p a b i : Forall (fun x => 0 <= x < p) a -> Forall (fun x => 0 <= x < p) b ->
+  nth i (sub p a b) 0 = (nth i a 0 - nth i b 0) mod p.
+Proof.
+  intros Ha Hb. unfold sub. rewrite nth_strip. apply nth_sub_raw; assumption.
+Qed.
+
+Lemma sub_wf p a b : Forall (fun x => 0 <= x < p) a -> Forall (fun x => 0 <= x < p) b -> wf p (sub p a b).
+Proof.
+  intros Ha Hb. unfold sub. split; [|apply strip_last].
+  apply strip_Forall. apply sub_raw_Forall; assumption.
+Qed.
+
+(** * Extensionality of well-formed lists *)
+
+Lemma last_nth_length (x : Z) l d : last (x :: l) d = nth (length l) (x :: l) d.
+Proof.
+  revert x; induction l as [|y l IH]; intros x; [reflexivity|].
+  rewrite last_cons_nonnil by discriminate. cbn [length]. rewrite IH. reflexivity.
+Qed.
+
+Lemma wf_tail p x l : wf p (x :: l) -> wf p l.
+Proof.
+  intros [Hf Hl]. split.
+  - inversion Hf; assumption.
+  - destruct l as [|y l]; [cbn; lia|]. rewrite last_cons_nonnil in Hl by discriminate. exact Hl.
+Qed.
+
+Lemma wf_nth_zero_nil p l : wf p l -> (forall i, nth i l 0 = 0) -> l = [].
+Proof.
+  intros [_ Hl] H. destruct l as [|x l]; [reflexivity|].
+  exfalso. apply Hl. rewrite last_nth_length.
+  rewrite (nth_indep _ 1 0) by (cbn [length]; lia). apply H.
+Qed.
+
+Lemma wf_nth_ext p a b : wf p a -> wf p b -> (forall i, nth i a 0 = nth i b 0) -> a = b.
+Proof.
+  revert b; induction a as [|x a IH]; intros b Ha Hb H.
+  - symmetry. apply (wf_nth_zero_nil p b Hb). intros i. rewrite <- H. destruct i; reflexivity.
+  - destruct b as [|y b].
+    + apply (wf_nth_zero_nil p _ Ha). intros i. rewrite H. destruct i; reflexivity.
+    + f_equal.
+      * exact (H O).
+      * apply IH; [exact (wf_tail p x a Ha)|exact (wf_tail p y b Hb)|].
+        intros i. exact (H (S i)).
+Qed.
+
+(** ------------------------------------------------------------------------------------------
+    Part 3: theorems about the operations *)
+Notation inr p a := (Forall (fun x => 0 <= x < p) a).
+
+Lemma wf_inr p a : wf p a -> inr p a.
+Proof. intros [H _]; exact H. Qed.
+Lemma wf_nil p : wf p [].
+Proof. split; [constructor|cbn; lia]. Qed.
+Lemma prime_gt1 p : prime p -> 1 < p.
+Proof. intros H. pose proof (prime_ge_2 p H). lia. Qed.
+
+(** denotations: every reduced operation is congruent to the integer-polynomial operation *)
+Lemma add_peq p a b : 0 < p -> inr p a -> inr p b -> peq p (add p a b) (addz a b).
+Proof.
+  intros Hp Ha Hb. apply ceq_peq; [lia|]. intros i.
+  rewrite nth_add_generic, nth_addz by assumption. apply Z.mod_mod. lia.
+Qed.
+Lemma sub_peq p a b : 0 < p -> inr p a -> inr p b -> peq p (sub p a b) (subz a b).
+Proof.
+  intros Hp Ha Hb. apply ceq_peq; [lia|]. intros i.
+  rewrite nth_sub_generic, nth_subz by assumption. apply Z.mod_mod. lia.
+Qed.
+
+Lemma nth_neg p a i : inr p a -> nth i (neg p a) 0 = (- nth i a 0) mod p.
+Proof.
+  intros H. revert i; induction H as [|x t Hx Ht IH]; intros i.
+  - destruct i; reflexivity.
+  - destruct i as [|i]; cbn [neg map nth]; [|apply IH].
+    destruct (Z.eqb_spec x 0) as [E|E]; [subst; reflexivity|].
+    apply Z.mod_unique with (-1); lia.
+Qed.
+Lemma neg_inr p a : inr p a -> inr p (neg p a).
+Proof.
+  induction 1 as [|x t Hx Ht IH]; cbn [neg map]; constructor; [|exact IH].
+  destruct (Z.eqb_spec x 0); lia.
+Qed.
+Lemma neg_last p a : inr p a -> last a 1 <> 0 -> last (neg p a) 1 <> 0.
+Proof.
+  induction 1 as [|x t Hx Ht IH]; intros L; [cbn; lia|].
+  destruct t as [|y t'].
+  - cbn in L |- *. destruct (Z.eqb_spec x 0); lia.
+  - rewrite last_cons_nonnil in L by discriminate.
+    change (neg p (x :: y :: t')) with ((if x =? 0 then 0 else p - x) :: neg p (y :: t')).
+    rewrite last_cons_nonnil by (cbn; discriminate). apply IH, L.
+Qed.
+Lemma neg_wf p a : wf p a -> wf p (neg p a).
+Proof. intros [Ha La]. split; [apply neg_inr, Ha|apply neg_last; assumption]. Qed.
+Lemma neg_peq p a : 0 < p -> inr p a -> peq p (neg p a) (negz a).
+Proof.
+  intros Hp Ha. apply ceq_peq; [lia|]. intros i.
+  rewrite nth_neg, nth_negz by assumption. apply Z.mod_mod. lia.
+Qed.
+
+Lemma modp_inr p a : 0 < p -> inr p (modp p a).
+Proof.
+  intros Hp. unfold modp. induction a as [|x t IH]; cbn [map]; constructor; [|exact IH].
+  apply Z.mod_pos_bound; lia.
+Qed.
+Lemma last_modp p a : a <> [] -> last (modp p a) 1 = (last a 0) mod p.
+Proof.
+  induction a as [|x t IH]; intros H; [congruence|].
+  destruct t as [|y t']; [reflexivity|].
+  change (modp p (x :: y :: t')) with (x mod p :: modp p (y :: t')).
+  rewrite !last_cons_nonnil by (cbn; discriminate). apply IH. discriminate.
+Qed.
+Lemma wf_last0 p a : wf p a -> a <> [] -> 0 < last a 0 < p.
+Proof.
+  intros [Ha La] Hn.
+  assert (E : last a 0 = last a 1).
+  { clear Ha La. induction a as [|x t IH]; [congruence|]. destruct t as [|y t']; [reflexivity|].
+    rewrite !last_cons_nonnil by discriminate. apply IH. discriminate. }
+  rewrite E.
+  assert (0 <= last a 1 < p).
+  { apply (proj1 (Forall_forall _ a) Ha).
+    destruct a as [|x t]; [congruence|]. clear. revert x; induction t as [|y t IH]; intros x; [left; reflexivity|].
+    rewrite last_cons_nonnil by discriminate. right. apply IH. }
+  lia.
+Qed.
+
+Lemma mul_peq p a b : 0 < p -> peq p (mul p a b) (mulz a b).
+Proof.
+  intros Hp. unfold mul. destruct (length b <? length a)%nat.
+  - destruct b as [|y b'].
+    + apply peq_evalZ. intros x. rewrite evalZ_mulz. cbn. ring.
+    + eapply peq_trans; [apply peq_modp; lia|]. apply peq_evalZ. intros x. rewrite !evalZ_mulz. ring.
+  - destruct a as [|x a'].
+    + apply peq_refl.
+    + apply peq_modp; lia.
+Qed.
+Lemma mul_inr p a b : 0 < p -> inr p (mul p a b).
+Proof.
+  intros Hp. unfold mul. destruct (length b <? length a)%nat.
+  - destruct b; [constructor|apply modp_inr, Hp].
+  - destruct a; [constructor|apply modp_inr, Hp].
+Qed.
+Lemma mul_last_aux p a b : prime p -> wf p a -> wf p b -> a <> [] -> b <> [] ->
+  last (modp p (mulz a b)) 1 <> 0.
+Proof.
+  intros Pp Wa Wb Ha Hb. pose proof (prime_gt1 p Pp) as Hp.
+  assert (Hm : mulz a b <> []).
+  { intros E. pose proof (length_mulz a b Ha Hb) as L. rewrite E in L.
+    destruct a; [congruence|]. destruct b; [congruence|]. cbn in L. lia. }
+  rewrite last_modp by exact Hm. rewrite last_mulz by assumption.
+  pose proof (wf_last0 p a Wa Ha) as Ra. pose proof (wf_last0 p b Wb Hb) as Rb.
+  intros E. apply Z.mod_divide in E; [|lia].
+  apply prime_mult in E; [|exact Pp].
+  destruct E as [E|E]; apply Z.divide_pos_le in E; lia.
+Qed.
+Lemma mul_wf p a b : prime p -> wf p a -> wf p b -> wf p (mul p a b).
+Proof.
+  intros Pp Wa Wb. pose proof (prime_gt1 p Pp) as Hp. split; [apply mul_inr; lia|].
+  unfold mul. destruct (length b <? length a)%nat eqn:E.
+  - destruct b as [|y b'] eqn:Eb; [cbn; lia|]. rewrite <- Eb in *.
+    apply mul_last_aux; try assumption; [subst; discriminate|].
+    intros ->. apply Nat.ltb_lt in E. cbn in E. lia.
+  - destruct a as [|x a'] eqn:Ea; [cbn; lia|]. rewrite <- Ea in *.
+    apply mul_last_aux; try assumption; [subst; discriminate|].
+    intros ->. apply Nat.ltb_ge in E. subst a. cbn in E. lia.
+Qed.
+
+(** coefficient semantics and the commutative group laws of addition *)
+Theorem add_coef p a b i : inr p a -> inr p b -> nth i (add p a b) 0 = (nth i a 0 + nth i b 0) mod p.
+Proof. apply nth_add_generic. Qed.
+Theorem sub_coef p a b i : inr p a -> inr p b -> nth i (sub p a b) 0 = (nth i a 0 - nth i b 0) mod p.
+Proof. apply nth_sub_generic. Qed.
+Theorem neg_coef p a i : inr p a -> nth i (neg p a) 0 = (- nth i a 0) mod p.
+Proof. apply nth_neg. Qed.
+
+Lemma add_raw_comm p a b : add_raw p a b = add_raw p b a.
+Proof.
+  revert b; induction a as [|x a IH]; intros [|y b]; cbn [add_raw]; try reflexivity.
+  rewrite IH. unfold addc. rewrite (Z.add_comm x y). reflexivity.
+Qed.
+Theorem add_comm p a b : add p a b = add p b a.
+Proof.
+  unfold add. destruct (length a <? length b)%nat eqn:E1, (length b <? length a)%nat eqn:E2;
+    try reflexivity; rewrite (add_raw_comm p a b); reflexivity.
+Qed.
+Theorem add_assoc p a b c : 0 < p -> inr p a -> inr p b -> inr p c ->
+  add p (add p a b) c = add p a (add p b c).
+Proof.
+  intros Hp Ha Hb Hc.
+  pose proof (add_wf p a b Ha Hb) as Wab. pose proof (add_wf p b c Hb Hc) as Wbc.
+  apply (canon_peq p); [exact Hp|apply add_wf; [exact (wf_inr _ _ Wab)|exact Hc]|apply add_wf; [exact Ha|exact (wf_inr _ _ Wbc)]|].
+  eapply peq_trans; [apply add_peq; [exact Hp|exact (wf_inr _ _ Wab)|exact Hc]|].
+  eapply peq_trans; [apply peq_addz; [apply add_peq; assumption|apply peq_refl]|].
+  apply peq_sym.
+  eapply peq_trans; [apply add_peq; [exact Hp|exact Ha|exact (wf_inr _ _ Wbc)]|].
+  eapply peq_trans; [apply peq_addz; [apply peq_refl|apply add_peq; assumption]|].
+  apply peq_evalZ. intros x. rewrite !evalZ_addz. ring.
+Qed.
+Theorem add_0_r p a : wf p a -> add p a [] = a.
+Proof.
+  intros [_ La]. unfold add. replace (length a <? length (@nil Z))%nat with false
+    by (symmetry; apply Nat.ltb_ge; cbn; lia).
+  destruct a; [reflexivity|]. cbn [add_raw]. apply strip_id, La.
+Qed.
+Theorem add_neg_r p a : 0 < p -> inr p a -> add p a (neg p a) = [].
+Proof.
+  intros Hp Ha. apply (canon_peq p); [exact Hp|apply add_wf; [exact Ha|apply neg_inr, Ha]|apply wf_nil|].
+  eapply peq_trans; [apply add_peq; [exact Hp|exact Ha|apply neg_inr, Ha]|].
+  eapply peq_trans; [apply peq_addz; [apply peq_refl|apply neg_peq; assumption]|].
+  apply peq_evalZ. intros x. rewrite evalZ_addz, evalZ_negz. cbn. ring.
+Qed.
+Theorem sub_add_neg p a b : 0 < p -> inr p a -> inr p b -> sub p a b = add p a (neg p b).
+Proof.
+  intros Hp Ha Hb. apply (canon_peq p); [exact Hp|apply sub_wf; assumption|apply add_wf; [exact Ha|apply neg_inr, Hb]|].
+  eapply peq_trans; [apply sub_peq; assumption|]. apply peq_sym.
+  eapply peq_trans; [apply add_peq; [exact Hp|exact Ha|apply neg_inr, Hb]|].
+  unfold subz. apply peq_addz; [apply peq_refl|apply neg_peq; assumption].
+Qed.
+
+(** multiplication: convolution modulo p, ring laws *)
+Theorem mul_coef p a b k : 0 < p -> nth k (mul p a b) 0 = (nth k (mulz a b) 0) mod p.
+Proof.
+  intros Hp. pose proof (peq_ceq p _ _ ltac:(lia) (mul_peq p a b Hp) k) as H.
+  rewrite <- H. symmetry. apply nth_mod_small. apply mul_inr, Hp.
+Qed.
+(** the accumulator of _mul is the convolution: coefficient k of mulz a b is sum_{i<=k} a_i b_(k-i) *)
+Fixpoint conv (a b : list Z) (k : nat) (i : nat) : Z :=
+  match i with
+  | O => nth O a 0 * nth k b 0
+  | S i' => nth i a 0 * nth (k - i) b 0 + conv a b k i'
+  end.
+Lemma conv_cons x a b k i : (i <= k)%nat ->
+  conv (x :: a) b (S k) (S i) = x * nth (S k) b 0 + conv a b k i.
+Proof.
+  induction i as [|i IH]; intros H.
+  - cbn [conv nth]. replace (S k - 1)%nat with k by lia. ring.
+  - cbn [conv] in IH |- *. rewrite IH by lia. cbn [nth].
+    replace (S k - S (S i))%nat with (k - S i)%nat by lia. ring.
+Qed.
+Lemma conv_nil b k i : conv [] b k i = 0.
+Proof. induction i as [|i IH]; cbn [conv]; rewrite ?IH; rewrite !nth_nil0; ring. Qed.
+Theorem mulz_coef a b k : nth k (mulz a b) 0 = conv a b k k.
+Proof.
+  revert k; induction a as [|x a IH]; intros k.
+  - cbn [mulz]. rewrite nth_nil0, conv_nil. reflexivity.
+  - rewrite mulz_cons, nth_addz, nth_scalez. destruct k as [|k].
+    + cbn [nth conv]. ring.
+    + cbn [nth]. rewrite IH. rewrite conv_cons by lia. reflexivity.
+Qed.
+
+Theorem mul_comm p a b : prime p -> wf p a -> wf p b -> mul p a b = mul p b a.
+Proof.
+  intros Pp Wa Wb. pose proof (prime_gt1 p Pp) as Hp.
+  apply (canon_peq p); [lia|apply mul_wf; assumption|apply mul_wf; assumption|].
+  eapply peq_trans; [apply mul_peq; lia|]. apply peq_sym.
+  eapply peq_trans; [apply mul_peq; lia|].
+  apply peq_evalZ. intros x. rewrite !evalZ_mulz. ring.
+Qed.
+Theorem mul_assoc p a b c : prime p -> wf p a -> wf p b -> wf p c ->
+  mul p (mul p a b) c = mul p a (mul p b c).
+Proof.
+  intros Pp Wa Wb Wc. pose proof (prime_gt1 p Pp) as Hp.
+  apply (canon_peq p); [lia|repeat apply mul_wf; assumption|repeat apply mul_wf; assumption|].
+  eapply peq_trans; [apply mul_peq; lia|].
+  eapply peq_trans; [apply peq_mulz; [apply mul_peq; lia|apply peq_refl]|].
+  apply peq_sym.
+  eapply peq_trans; [apply mul_peq; lia|].
+  eapply peq_trans; [apply peq_mulz; [apply peq_refl|apply mul_peq; lia]|].
+  apply peq_evalZ. intros x. rewrite !evalZ_mulz. ring.
+Qed.
+Theorem mul_add_distr_l p a b c : prime p -> wf p a -> wf p b -> wf p c ->
+  mul p a (add p b c) = add p (mul p a b) (mul p a c).
+Proof.
+  intros Pp Wa Wb Wc. pose proof (prime_gt1 p Pp) as Hp.
+  pose proof (add_wf p b c (wf_inr _ _ Wb) (wf_inr _ _ Wc)) as Wbc.
+  apply (canon_peq p); [lia|apply mul_wf; assumption|apply add_wf; apply mul_inr; lia|].
+  eapply peq_trans; [apply mul_peq; lia|].
+  eapply peq_trans; [apply peq_mulz; [apply peq_refl|apply add_peq; [lia|exact (wf_inr _ _ Wb)|exact (wf_inr _ _ Wc)]]|].
+  apply peq_sym.
+  eapply peq_trans; [apply add_peq; [lia|apply mul_inr; lia|apply mul_inr; lia]|].
+  eapply peq_trans; [apply peq_addz; apply mul_peq; lia|].
+  apply peq_evalZ. intros x. rewrite !evalZ_addz, !evalZ_mulz, evalZ_addz. ring.
+Qed.
+Theorem mul_1_r p a : 1 < p -> wf p a -> mul p a [1] = a.
+Proof.
+  intros Hp Wa. apply (canon_peq p); [lia| |exact Wa|].
+  - split; [apply mul_inr; lia|]. unfold mul. cbn [length].
+    destruct (1 <? length a)%nat eqn:E.
+    + 
+      assert (Hn : a <> []) by (intros ->; cbn in E; discriminate).
+      assert (Hm : mulz [1] a <> []).
+      { pose proof (length_mulz [1] a ltac:(discriminate) Hn) as L. intros E'. rewrite E' in L.
+        destruct a; [congruence|]. cbn in L. lia. }
+      rewrite last_modp by exact Hm. rewrite last_mulz by (try discriminate; exact Hn).
+      cbn [last]. pose proof (wf_last0 p a Wa Hn). rewrite Z.mul_1_l, Z.mod_small by lia. lia.
+    + destruct a as [|x a'] eqn:Ea; [cbn; lia|]. rewrite <- Ea in *.
+      assert (Hn : a <> []) by (subst; discriminate).
+      assert (Hm : mulz a [1] <> []).
+      { pose proof (length_mulz a [1] Hn ltac:(discriminate)) as L. intros E'. rewrite E' in L.
+        subst a. cbn in L. lia. }
+      rewrite last_modp by exact Hm. rewrite last_mulz by (try discriminate; exact Hn).
+      cbn [last]. pose proof (wf_last0 p a Wa Hn). rewrite Z.mul_1_r, Z.mod_small by lia. lia.
+  - eapply peq_trans; [apply mul_peq; lia|]. apply peq_evalZ. intros x. rewrite evalZ_mulz. cbn [evalZ]. ring.
+Qed.
+Theorem mul_0_r p a : mul p a [] = [].
+Proof. unfold mul. cbn [length]. destruct (0 <? length a)%nat eqn:E; [reflexivity|].
+  destruct a; [reflexivity|]. cbn in E. discriminate. Qed.
+
+Lemma length_sqz a : a <> [] -> length (sqz a) = (2 * length a - 1)%nat.
+Proof.
+  induction a as [|x t IH]; intros H; [congruence|].
+  destruct t as [|y t']; [reflexivity|].
+  change (sqz (x :: y :: t')) with (x * x :: addz (scalez (2 * x) (y :: t')) (0 :: sqz (y :: t'))).
+  cbn [length]. rewrite length_addz, length_scalez. cbn [length]. rewrite IH by discriminate.
+  cbn [length]. lia.
+Qed.
+Theorem sq_eq_mul p a : 0 < p -> sq p a = mul p a a.
+Proof.
+  intros Hp. unfold sq, mul. rewrite Nat.ltb_irrefl. destruct a as [|x t] eqn:Ea; [reflexivity|]. rewrite <- Ea.
+  assert (Hn : a <> []) by (subst; discriminate).
+  apply nth_ext with (d := 0) (d' := 0).
+  - unfold modp. rewrite !map_length, length_sqz, length_mulz by assumption. lia.
+  - intros i _. rewrite !nth_modp.
+    apply (peq_ceq p); [lia|]. apply peq_evalZ. intros z. rewrite evalZ_sqz, evalZ_mulz. reflexivity.
+Qed.
+
+(** (c) the division algorithm *)
+Lemma Forall_firstn' {A} (P : A -> Prop) n (l : list A) : Forall P l -> Forall P (firstn n l).
+Proof. intros H. revert n; induction H as [|x t Hx Ht IH]; intros [|n]; cbn [firstn]; constructor; auto. Qed.
+Lemma Forall_skipn' {A} (P : A -> Prop) n (l : list A) : Forall P l -> Forall P (skipn n l).
+Proof. intros H. revert n; induction H as [|x t Hx Ht IH]; intros [|n]; cbn [skipn]; auto. Qed.
+
+Lemma row_sub_inr p qi r b : 0 < p -> inr p r -> inr p (row_sub p qi r b).
+Proof.
+  intros Hp H. revert b; induction H as [|x t Hx Ht IH]; intros [|y b]; cbn [row_sub]; try constructor; auto.
+  apply Z.mod_pos_bound; lia.
+Qed.
+Lemma row_sub_nth p qi r b j : length r = length b ->
+  nth j (row_sub p qi r b) 0 = (nth j r 0 - qi * nth j b 0) mod p.
+Proof.
+  revert b j; induction r as [|x r IH]; intros [|y b] j L; cbn [length] in L; try discriminate.
+  - cbn [row_sub]. rewrite !nth_nil0. rewrite Z.mul_0_r. reflexivity.
+  - cbn [row_sub]. destruct j as [|j]; cbn [nth]; [reflexivity|]. apply IH. lia.
+Qed.
+Lemma row_sub_peq p qi r b : 0 < p -> length r = length b ->
+  peq p (row_sub p qi r b) (subz r (scalez qi b)).
+Proof.
+  intros Hp L. apply ceq_peq; [lia|]. intros j.
+  rewrite row_sub_nth, nth_subz, nth_scalez by exact L. apply Z.mod_mod. lia.
+Qed.
+Lemma strip_drops_top l : l <> [] -> last l 0 = 0 -> (length (strip l) < length l)%nat.
+Proof.
+  induction l as [|x t IH]; intros Hn Hl; [congruence|].
+  destruct t as [|y t'].
+  - cbn in Hl. subst x. cbn. lia.
+  - rewrite last_cons_nonnil in Hl by discriminate.
+    specialize (IH ltac:(discriminate) Hl).
+    rewrite strip_cons. destruct (strip (y :: t')) as [|z s]; [destruct (x =? 0)|]; cbn [length] in *; lia.
+Qed.
+
+Section DivStep.
+Variables (p : Z) (b : list Z) (b1 : Z).
+Hypothesis Hp : 1 < p.
+Hypothesis Hb : inr p b.
+Hypothesis Hbn : b <> [].
+Hypothesis Hb1 : (last b 0 * b1) mod p = 1.
+
+Let full (qi : Z) (i : nat) (r : list Z) := firstn i r ++ row_sub p qi (skipn i r) b.
+
+Lemma full_peq qi i r : length r = (i + length b)%nat ->
+  peq p (full qi i r) (subz r (repeat 0 i ++ scalez qi b)).
+Proof.
+  intros L. unfold full.
+  assert (Ls : length (skipn i r) = length b) by (rewrite skipn_length; lia).
+  destruct (row_sub_peq p qi (skipn i r) b ltac:(lia) Ls) as [k Hk].
+  exists (repeat 0 i ++ k). intros x.
+  rewrite evalZ_app, Hk, evalZ_subz, evalZ_scalez.
+  rewrite evalZ_subz, !evalZ_app, !evalZ_repeat0, evalZ_scalez, !repeat_length.
+  rewrite firstn_length_le by lia.
+  rewrite <- (firstn_skipn i r) at 3. rewrite evalZ_app, firstn_length_le by lia. ring.
+Qed.
+Lemma full_inr qi i r : inr p r -> inr p (full qi i r).
+Proof.
+  intros H. unfold full. apply Forall_app. split; [apply Forall_firstn', H|].
+  apply row_sub_inr; [lia|apply Forall_skipn', H].
+Qed.
+Lemma full_length qi i r : length r = (i + length b)%nat -> length (full qi i r) = length r.
+Proof.
+  intros L. unfold full. rewrite app_length, firstn_length_le by lia.
+  assert (forall r' b', length (row_sub p qi r' b') = length r') as LR.
+  { induction r' as [|x r' IH]; intros [|y b']; cbn [row_sub length]; auto. }
+  rewrite LR, skipn_length. lia.
+Qed.
+Lemma full_top i r : inr p r -> length r = (i + length b)%nat ->
+  last (full ((last r 0 * b1) mod p) i r) 0 = 0.
+Proof.
+  intros Hr L. set (qi := (last r 0 * b1) mod p).
+  assert (Lb : (length b >= 1)%nat) by (destruct b; [congruence|cbn; lia]).
+  rewrite last_nth0, full_length by exact L.
+  pose proof (peq_ceq p _ _ ltac:(lia) (full_peq qi i r L) (length r - 1)%nat) as C.
+  rewrite (nth_mod_small p _ _ (full_inr qi i r Hr)) in C. rewrite C.
+  rewrite nth_subz. rewrite app_nth2 by (rewrite repeat_length; lia).
+  rewrite repeat_length, nth_scalez.
+  replace (length r - 1 - i)%nat with (length b - 1)%nat by lia.
+  rewrite <- !last_nth0.
+  assert (E : (qi * last b 0) mod p = last r 0 mod p).
+  { unfold qi. rewrite Z.mul_mod_idemp_l by lia.
+    replace (last r 0 * b1 * last b 0) with (last r 0 * (last b 0 * b1)) by ring.
+    rewrite <- Z.mul_mod_idemp_r, Hb1, Z.mul_1_r by lia. reflexivity. }
+  rewrite Zminus_mod, E, Z.sub_diag. apply Zmod_0_l.
+Qed.
+
+Lemma elim_row_spec i r : inr p r -> length r = (i + length b)%nat ->
+  let r1 := elim_row p ((last r 0 * b1) mod p) i r b in
+  inr p r1 /\ last r1 1 <> 0 /\ (length r1 < i + length b)%nat /\
+  peq p r1 (subz r (repeat 0 i ++ scalez ((last r 0 * b1) mod p) b)).
+Proof.
+  intros Hr L. cbv zeta. unfold elim_row. fold (full ((last r 0 * b1) mod p) i r).
+  repeat split.
+  - apply strip_Forall, full_inr, Hr.
+  - apply strip_last.
+  - rewrite <- L, <- (full_length ((last r 0 * b1) mod p) i r L). apply strip_drops_top.
+    + intros E. apply (f_equal (@length Z)) in E. rewrite full_length in E by exact L.
+      destruct b; [congruence|]. cbn in E, L. lia.
+    + apply full_top; assumption.
+  - eapply peq_trans; [apply peq_strip|]. apply full_peq, L.
+Qed.
+
+Lemma divmod_loop_spec : forall cnt q r, inr p r -> last r 1 <> 0 -> (length r < cnt + length b)%nat ->
+  exists q0, fst (divmod_loop p b b1 cnt q r) = q0 ++ q /\ length q0 = cnt /\ inr p q0 /\
+    inr p (snd (divmod_loop p b b1 cnt q r)) /\ last (snd (divmod_loop p b b1 cnt q r)) 1 <> 0 /\
+    (length (snd (divmod_loop p b b1 cnt q r)) < length b)%nat /\
+    peq p (addz (mulz q0 b) (snd (divmod_loop p b b1 cnt q r))) r.
+Proof.
+  induction cnt as [|i IH]; intros q r Hr Lr Hl.
+  - exists []. cbn [divmod_loop fst snd app length mulz]. rewrite addz_nil_l.
+    repeat split; auto using peq_refl.
+  - cbn [divmod_loop]. destruct (i + length b <=? length r)%nat eqn:E.
+    + apply Nat.leb_le in E. assert (L : length r = (i + length b)%nat) by lia.
+      set (qi := (last r 0 * b1) mod p).
+      destruct (elim_row_spec i r Hr L) as (H1 & H2 & H3 & H4). fold qi in H1, H2, H3, H4.
+      destruct (IH (qi :: q) _ H1 H2 H3) as (q0 & F & Lq & Iq & Ir & Lr' & Ll & P).
+      exists (q0 ++ [qi]). rewrite F, <- app_assoc. cbn [app].
+      repeat split; auto.
+      * rewrite app_length. cbn [length]. lia.
+      * apply Forall_app. split; [exact Iq|]. constructor; [|constructor].
+        unfold qi. apply Z.mod_pos_bound. lia.
+      * destruct P as [k1 K1]. destruct H4 as [k2 K2]. exists (addz k1 k2). intros x.
+        specialize (K1 x). specialize (K2 x).
+        rewrite evalZ_addz, evalZ_mulz in K1.
+        rewrite evalZ_subz, evalZ_app, evalZ_repeat0, repeat_length, evalZ_scalez in K2.
+        rewrite !evalZ_addz, evalZ_mulz, evalZ_app, Lq. cbn [evalZ].
+        set (B := evalZ b x) in *. set (Xi := x ^ Z.of_nat i) in *.
+        set (Q := evalZ q0 x) in *. lia.
+    + apply Nat.leb_gt in E.
+      destruct (IH (0 :: q) r Hr Lr E) as (q0 & F & Lq & Iq & Ir & Lr' & Ll & P).
+      exists (q0 ++ [0]). rewrite F, <- app_assoc. cbn [app].
+      repeat split; auto.
+      * rewrite app_length. cbn [length]. lia.
+      * apply Forall_app. split; [exact Iq|]. constructor; [lia|constructor].
+      * destruct P as [k1 K1]. exists k1. intros x. specialize (K1 x).
+        rewrite evalZ_addz, evalZ_mulz in K1.
+        rewrite !evalZ_addz, evalZ_mulz, evalZ_app. cbn [evalZ]. lia.
+Qed.
+End DivStep.
+
+Lemma mod_loop_eq p b b1 : forall cnt q r, mod_loop p b b1 cnt r = snd (divmod_loop p b b1 cnt q r).
+Proof.
+  induction cnt as [|i IH]; intros q r; [reflexivity|].
+  cbn [mod_loop divmod_loop]. destruct (i + length b <=? length r)%nat; apply IH.
+Qed.
+Theorem mod_nz_eq p a b : mod_nz p a b = snd (divmod_nz p a b).
+Proof.
+  unfold mod_nz, divmod_nz. destruct (length a <? length b)%nat; [reflexivity|]. apply mod_loop_eq.
+Qed.
+
+Lemma wf_last_inv p b : prime p -> wf p b -> b <> [] -> (last b 0 * inv_raw p (last b 0)) mod p = 1.
+Proof.
+  intros Pp Wb Hn. pose proof (wf_last0 p b Wb Hn) as R.
+  apply inv_raw_spec; [exact Pp|]. rewrite Z.mod_small by lia. lia.
+Qed.
+
+Theorem divmod_nz_spec p a b : prime p -> wf p a -> wf p b -> b <> [] ->
+  inr p (fst (divmod_nz p a b)) /\ wf p (snd (divmod_nz p a b)) /\
+  (length (snd (divmod_nz p a b)) < length b)%nat /\
+  peq p (addz (mulz (fst (divmod_nz p a b)) b) (snd (divmod_nz p a b))) a.
+Proof.
+  intros Pp [Ia La] Wb Hn. pose proof (prime_gt1 p Pp) as Hp.
+  unfold divmod_nz. destruct (length a <? length b)%nat eqn:E.
+  - apply Nat.ltb_lt in E. cbn [fst snd mulz]. rewrite addz_nil_l.
+    repeat split; auto using peq_refl.
+  - apply Nat.ltb_ge in E.
+    destruct (divmod_loop_spec p b (inv_raw p (last b 0)) Hp (wf_inr _ _ Wb) Hn (wf_last_inv p b Pp Wb Hn)
+                (S (length a - length b)) [] a Ia La ltac:(lia)) as (q0 & F & Lq & Iq & Ir & Lr & Ll & P).
+    rewrite app_nil_r in F. rewrite F. repeat split; auto.
+Qed.
+
+(** divmod(a, b) = (q, r) with a = q*b + r and deg r < deg b, as an equation between normal forms *)
+Theorem divmod_spec p a b q r : prime p -> wf p a -> wf p b -> divmod p a b = Ok (q, r) ->
+  a = add p (mul p q b) r /\ (length r < length b)%nat /\ wf p r /\ inr p q.
+Proof.
+  intros Pp Wa Wb H. pose proof (prime_gt1 p Pp) as Hp. unfold divmod in H.
+  destruct b as [|y b'] eqn:Eb; [discriminate|]. rewrite <- Eb in *.
+  assert (Hn : b <> []) by (subst; discriminate).
+  inversion H as [H']. clear H.
+  destruct (divmod_nz_spec p a b Pp Wa Wb Hn) as (Iq & Wr & Ll & P).
+  rewrite H' in *. cbn [fst snd] in *.
+  repeat split; auto; try apply Wr.
+  apply (canon_peq p); [lia|exact Wa|apply add_wf; [apply mul_inr; lia|exact (wf_inr _ _ Wr)]|].
+  apply peq_sym. eapply peq_trans; [apply add_peq; [lia|apply mul_inr; lia|exact (wf_inr _ _ Wr)]|].
+  eapply peq_trans; [apply peq_addz; [apply mul_peq; lia|apply peq_refl]|]. exact P.
+Qed.
+Theorem divmod_zero p a : divmod p a [] = ZeroDiv.
+Proof. reflexivity. Qed.
+Theorem pmod_eq_divmod p a b : pmod p a b = bind (divmod p a b) (fun qr => Ok (snd qr)).
+Proof. unfold pmod, divmod. destruct b; [reflexivity|]. cbn [bind]. rewrite mod_nz_eq. reflexivity. Qed.
+
+(** (e) extended Euclid: the Bezout invariant through the loop *)
+Lemma inv_raw_range p a : 0 < p -> 0 <= inv_raw p a < p.
+Proof.
+  intros Hp. unfold inv_raw. destruct (egcd (egcd_fuel p) p (a mod p)) as [[g u] v].
+  apply Z.mod_pos_bound. lia.
+Qed.
+Lemma nth_scale_mod p c s i : nth i (scale_mod p c s) 0 = (nth i s 0 * c) mod p.
+Proof.
+  unfold scale_mod. revert i; induction s as [|x s IH]; intros i.
+  - cbn [map]. rewrite !nth_nil0. reflexivity.
+  - destruct i; cbn [map nth]; [reflexivity|apply IH].
+Qed.
+Lemma scale_mod_inr p c s : 0 < p -> inr p (scale_mod p c s).
+Proof.
+  intros Hp. unfold scale_mod. induction s; cbn [map]; constructor; auto. apply Z.mod_pos_bound; lia.
+Qed.
+Lemma scale_mod_peq p c s : 0 < p -> peq p (scale_mod p c s) (scalez c s).
+Proof.
+  intros Hp. apply ceq_peq; [lia|]. intros i. rewrite nth_scale_mod, nth_scalez, Z.mod_mod by lia.
+  f_equal. ring.
+Qed.
+Lemma nth_app_single (l : list Z) c i :
+  nth i (l ++ [c]) 0 = if (i <? length l)%nat then nth i l 0 else if (i =? length l)%nat then c else 0.
+Proof.
+  destruct (i <? length l)%nat eqn:E1.
+  - apply Nat.ltb_lt in E1. apply app_nth1, E1.
+  - apply Nat.ltb_ge in E1. rewrite app_nth2 by lia. destruct (i =? length l)%nat eqn:E2.
+    + apply Nat.eqb_eq in E2. subst i. rewrite Nat.sub_diag. reflexivity.
+    + apply Nat.eqb_neq in E2. destruct (i - length l)%nat as [|[|k]] eqn:E3; try lia; reflexivity.
+Qed.
+Lemma last0_eq_last1 (a : list Z) : a <> [] -> last a 0 = last a 1.
+Proof.
+  induction a as [|x t IH]; [congruence|]. intros _. destruct t as [|y t']; [reflexivity|].
+  rewrite !last_cons_nonnil by discriminate. apply IH. discriminate.
+Qed.
+
+(** monic: for g <> [] with leading coefficient lc, monic g = lc^-1 * g *)
+Lemma monic_pinv_nil p : monic_pinv p [] = ([], 0).
+Proof. reflexivity. Qed.
+Lemma monic_pinv_one p g : g <> [] -> last g 0 = 1 -> monic_pinv p g = (g, 1).
+Proof. intros Hn H. unfold monic_pinv. destruct g; [congruence|]. rewrite H. reflexivity. Qed.
+Lemma monic_pinv_scale p g : g <> [] -> last g 0 <> 1 ->
+  monic_pinv p g = (scale_mod p (inv_raw p (last g 0)) (removelast g) ++ [1], inv_raw p (last g 0)).
+Proof.
+  intros Hn H. unfold monic_pinv. destruct g as [|x t]; [congruence|].
+  destruct (Z.eqb_spec (last (x :: t) 0) 1); [contradiction|]. reflexivity.
+Qed.
+Lemma monic_scale_peq p g : prime p -> wf p g -> g <> [] -> last g 0 <> 1 ->
+  let c := inv_raw p (last g 0) in
+  peq p (scale_mod p c (removelast g) ++ [1]) (scalez c g) /\ wf p (scale_mod p c (removelast g) ++ [1]) /\ 2 <= c.
+Proof.
+  intros Pp Wg Hn H1 c. pose proof (prime_gt1 p Pp) as Hp.
+  pose proof (wf_last_inv p g Pp Wg Hn) as Hi. fold c in Hi.
+  pose proof (inv_raw_range p (last g 0) ltac:(lia)) as Rc. fold c in Rc.
+  pose proof (wf_last0 p g Wg Hn) as Rl.
+  assert (Hc2 : 2 <= c).
+  { destruct (Z.eq_dec c 0) as [E|E]; [rewrite E, Z.mul_0_r, Zmod_0_l in Hi; lia|].
+    destruct (Z.eq_dec c 1) as [E1|E1]; [rewrite E1, Z.mul_1_r, Z.mod_small in Hi by lia; lia|]. lia. }
+  repeat split; [| | |exact Hc2].
+  - apply ceq_peq; [lia|]. intros i.
+    rewrite (app_removelast_last 0 Hn) at 2.
+    unfold scalez. rewrite map_app. cbn [map]. fold (scalez c (removelast g)).
+    rewrite !nth_app_single. unfold scale_mod, scalez. rewrite !map_length.
+    destruct (i <? length (removelast g))%nat.
+    + fold (scale_mod p c (removelast g)). fold (scalez c (removelast g)).
+      rewrite nth_scale_mod, nth_scalez, Z.mod_mod by lia. f_equal. ring.
+    + destruct (i =? length (removelast g))%nat; [|reflexivity].
+      rewrite (Z.mul_comm c), Hi. apply Z.mod_1_l. lia.
+  - apply Forall_app. split; [apply scale_mod_inr; lia|constructor; [lia|constructor]].
+  - rewrite last_last. lia.
+Qed.
+
+Lemma sub_mul_peq p s q s1 : 0 < p -> inr p s ->
+  peq p (sub p s (mul p q s1)) (subz s (mulz q s1)).
+Proof.
+  intros Hp Hs. eapply peq_trans; [apply sub_peq; [exact Hp|exact Hs|apply mul_inr, Hp]|].
+  apply peq_subz; [apply peq_refl|apply mul_peq, Hp].
+Qed.
+
+Section Euclid.
+Variables (p : Z) (a0 b0 : list Z).
+Hypothesis Pp : prime p.
+
+Definition lin (s t : list Z) : list Z := addz (mulz s a0) (mulz t b0).
+
+Lemma gcdext_loop_spec : forall fuel a b s s1 t t1 g s' t',
+  wf p a -> wf p b -> wf p s -> wf p s1 -> wf p t -> wf p t1 ->
+  peq p (lin s t) a -> peq p (lin s1 t1) b ->
+  gcdext_loop p fuel a b s s1 t t1 = Some (g, s', t') ->
+  wf p g /\ wf p s' /\ wf p t' /\ peq p (lin s' t') g.
+Proof.
+  pose proof (prime_gt1 p Pp) as Hp.
+  induction fuel as [|f IH]; intros a b s s1 t t1 g s' t' Wa Wb Ws Ws1 Wt Wt1 P1 P2 H; [discriminate|].
+  cbn [gcdext_loop] in H. destruct b as [|y b'] eqn:Eb.
+  - inversion H; subst. auto.
+  - rewrite <- Eb in *. assert (Hn : b <> []) by (subst; discriminate).
+    destruct (divmod_nz p a b) as [q r] eqn:Ed.
+    destruct (divmod_nz_spec p a b Pp Wa Wb Hn) as (Iq & Wr & Ll & P). rewrite Ed in Iq, Wr, Ll, P.
+    cbn [fst snd] in Iq, Wr, Ll, P.
+    apply (IH b r s1 (sub p s (mul p q s1)) t1 (sub p t (mul p q t1))) in H; auto.
+    + apply sub_wf; [exact (wf_inr _ _ Ws)|apply mul_inr; lia].
+    + apply sub_wf; [exact (wf_inr _ _ Wt)|apply mul_inr; lia].
+    + (* s1' a0 + t1' b0 = (s a0 + t b0) - q (s1 a0 + t1 b0) = a - q b = r *)
+      unfold lin in *.
+      eapply peq_trans.
+      { apply peq_addz; (apply peq_mulz; [apply sub_mul_peq; [lia|]|apply peq_refl]).
+        - exact (wf_inr _ _ Ws). - exact (wf_inr _ _ Wt). }
+      eapply peq_trans.
+      { apply (peq_evalZ p _ (subz (addz (mulz s a0) (mulz t b0)) (mulz q (addz (mulz s1 a0) (mulz t1 b0))))).
+        intros x. rewrite ?evalZ_addz, ?evalZ_subz, ?evalZ_mulz, ?evalZ_addz, ?evalZ_subz, ?evalZ_mulz.
+        rewrite ?evalZ_addz, ?evalZ_mulz. ring. }
+      eapply peq_trans; [apply peq_subz; [exact P1|apply peq_mulz; [apply peq_refl|exact P2]]|].
+      eapply peq_trans; [apply peq_subz; [apply peq_sym, P|apply peq_refl]|].
+      apply peq_evalZ. intros x. rewrite evalZ_subz, evalZ_addz, !evalZ_mulz. ring.
+Qed.
+
+Lemma gcdext_loop_fuel : forall fuel a b s s1 t t1, wf p a -> wf p b -> (length b < fuel)%nat ->
+  gcdext_loop p fuel a b s s1 t t1 <> None.
+Proof.
+  induction fuel as [|f IH]; intros a b s s1 t t1 Wa Wb L; [lia|].
+  cbn [gcdext_loop]. destruct b as [|y b'] eqn:Eb; [discriminate|]. rewrite <- Eb in *.
+  assert (Hn : b <> []) by (subst; discriminate).
+  destruct (divmod_nz p a b) as [q r] eqn:Ed.
+  destruct (divmod_nz_spec p a b Pp Wa Wb Hn) as (Iq & Wr & Ll & P). rewrite Ed in Wr, Ll. cbn [snd] in Wr, Ll.
+  apply IH; auto. lia.
+Qed.
+End Euclid.
+
+Lemma wf_one p : 1 < p -> wf p [1].
+Proof. intros Hp. split; [constructor; [lia|constructor]|cbn; lia]. Qed.
+
+Theorem gcdext_bezout p a b g s t : prime p -> wf p a -> wf p b -> gcdext p a b = Ok (g, s, t) ->
+  add p (mul p s a) (mul p t b) = g /\ wf p g /\ wf p s /\ wf p t /\ (g = [] \/ last g 0 = 1).
+Proof.
+  intros Pp Wa Wb H. pose proof (prime_gt1 p Pp) as Hp. unfold gcdext in H.
+  destruct (gcdext_loop p (S (length b)) a b [1] [] [] [1]) as [[[g0 s0] t0]|] eqn:El; [|discriminate].
+  apply (gcdext_loop_spec p a b Pp) in El; auto using wf_nil, wf_one.
+  2:{ unfold lin. apply peq_evalZ. intros x. rewrite evalZ_addz, !evalZ_mulz. cbn [evalZ]. ring. }
+  2:{ unfold lin. apply peq_evalZ. intros x. rewrite evalZ_addz, !evalZ_mulz. cbn [evalZ]. ring. }
+  destruct El as (Wg0 & Ws0 & Wt0 & P). unfold lin in P.
+  assert (Fin : forall g' s' t', wf p g' -> wf p s' -> wf p t' -> peq p (addz (mulz s' a) (mulz t' b)) g' ->
+                add p (mul p s' a) (mul p t' b) = g').
+  { intros g' s' t' Wg' Ws' Wt' P'. apply (canon_peq p); [lia|apply add_wf; apply mul_inr; lia|exact Wg'|].
+    eapply peq_trans; [apply add_peq; [lia|apply mul_inr; lia|apply mul_inr; lia]|].
+    eapply peq_trans; [apply peq_addz; apply mul_peq; lia|]. exact P'. }
+  destruct g0 as [|x g1] eqn:Eg.
+  - rewrite monic_pinv_nil in H. cbn in H. inversion H; subst.
+    split; [apply Fin; auto|split; [auto|split; [auto|split; [auto|left; reflexivity]]]].
+  - rewrite <- Eg in *. assert (Hn : g0 <> []) by (subst; discriminate).
+    destruct (Z.eq_dec (last g0 0) 1) as [E1|E1].
+    + rewrite monic_pinv_one in H by assumption. cbn in H. inversion H; subst g s t.
+      split; [apply Fin; auto|split; [auto|split; [auto|split; [auto|right; exact E1]]]].
+    + rewrite monic_pinv_scale in H by assumption.
+      destruct (monic_scale_peq p g0 Pp Wg0 Hn E1) as (Pm & Wm & Hc).
+      set (c := inv_raw p (last g0 0)) in *.
+      destruct (Z.geb_spec c 2) as [_|?]; [|lia]. inversion H; subst g s t. clear H.
+      assert (Wsc : forall u, wf p u -> wf p (scale_mod p c u)).
+      { intros u [Iu Lu]. split; [apply scale_mod_inr; lia|].
+        destruct u as [|z u'] eqn:Eu; [cbn; lia|]. rewrite <- Eu in *.
+        assert (Hun : u <> []) by (subst; discriminate).
+        assert (Hl : last (scale_mod p c u) 1 = (last u 0 * c) mod p).
+        { clear -Hun. induction u as [|z u IH]; [congruence|]. destruct u as [|w u']; [reflexivity|].
+          change (scale_mod p c (z :: w :: u')) with ((z * c) mod p :: scale_mod p c (w :: u')).
+          rewrite !last_cons_nonnil by (cbn; discriminate). apply IH. discriminate. }
+        rewrite Hl. pose proof (wf_last0 p u (conj Iu Lu) Hun) as Ru.
+        pose proof (inv_raw_range p (last g0 0) ltac:(lia)) as Rc. fold c in Rc.
+        intros E. apply Z.mod_divide in E; [|lia]. apply prime_mult in E; [|exact Pp].
+        destruct E as [E|E]; apply Z.divide_pos_le in E; lia. }
+      split; [|split; [exact Wm|split; [apply Wsc, Ws0|split; [apply Wsc, Wt0|right; apply last_last]]]].
+      apply Fin; auto.
+      eapply peq_trans; [apply peq_addz; (apply peq_mulz; [apply scale_mod_peq; lia|apply peq_refl])|].
+      apply peq_sym. eapply peq_trans; [exact Pm|]. eapply peq_trans; [apply peq_scalez, peq_sym, P|].
+      apply peq_evalZ. intros z. rewrite evalZ_scalez, !evalZ_addz, !evalZ_mulz, !evalZ_scalez. ring.
+Qed.
+Theorem gcdext_total p a b : prime p -> wf p a -> wf p b -> exists g s t, gcdext p a b = Ok (g, s, t).
+Proof.
+  intros Pp Wa Wb. unfold gcdext.
+  pose proof (gcdext_loop_fuel p Pp (S (length b)) a b [1] [] [] [1] Wa Wb ltac:(lia)) as F.
+  destruct (gcdext_loop p (S (length b)) a b [1] [] [] [1]) as [[[g0 s0] t0]|]; [|congruence].
+  destruct (monic_pinv p g0) as [g' a1]. destruct (a1 >=? 2); eauto.
+Qed.
